@@ -582,7 +582,11 @@ def sweep(ctx, n_seq, seed, only=None, label="run"):
                   digest([seed, o["i"]]) if o["steps"] >= 2 else None)
         res.traces += o["steps"]
         res.extra["cache_populations_checked"] = res.extra.get("cache_populations_checked", 0) + o["populated"]
+        diag = res.extra.get("analysis_diagnostics", {})
         for v in o["violations"]:
+            d = diag.get(v["f"])
+            if isinstance(d, dict) and v["key"].startswith("mutates:"):
+                v["what"] += f" | static analysis: write through `{d['var']}` at koala/{d['module'].replace('.', '/')}.py:{d['line']} (chain {' -> '.join(d['chain'])})"
             res.violation(v["key"], v["what"], v["case"])
             if v["key"].startswith("mutates:"):
                 mutated.setdefault(v["f"], v)
